@@ -334,7 +334,7 @@ def boundary_ops(ctx):
         ops.append(_fmt("s2hard_chain", w, x, y, z, c, (size, lo, 1, 1)))
         ops.append(_fmt("s2hard_chunk", w, x, y, z, c, (lo, 2, size)))
         ops.append(_fmt("s2hard_chain", w, x, y, z, c, (240, max(B - 240, 0), 1, 1, 1)))
-        if rng.random() < 0.5:
+        if rng.random() < 0.5 and z <= 20000:
             ops.append(_fmt("s2hard_chunk", w, x, y, z, c, (0, -(-z // size), size)))       # low = 0, limit clipped by z
         else:
             tz = z // size
@@ -505,18 +505,41 @@ def _run_stream(name, ctx, inputs_small, inputs_big, combos_small, combos_big, e
                   env={"PCV_OP_TIMEOUT": "120"}, classify=classify)
 
 
+def _multi_worker_inputs(rng, n):
+    """sieve limits just above 2^21 / 3 * 2^20: the real region then runs a team of 2..4 workers (ideal_num_threads with
+    thread_threshold 2^20) while the model side can still replay every work item"""
+    out = []
+    for _ in range(n):
+        lim = rng.choice((rng.randint(2 ** 21, 2 ** 21 + 10 ** 5), rng.randint(3 * 2 ** 20, 3 * 2 ** 20 + 3 * 10 ** 5),
+                          rng.randint(4 * 2 ** 20, 4 * 2 ** 20 + 2 * 10 ** 5)))
+        # S2_hard: z = lim = x / y with x^(1/3) <= y
+        y = rng.randint(1300, 2600)
+        x = lim * y + rng.randint(0, y - 1)
+        if gen.iroot(3, x) <= y and x // y == lim:
+            out.append(("s2hard", x, y, lim, 8))
+        # D: x / z = lim, x^(1/3) < y <= z < sqrt(x)
+        z = rng.randint(lim // 40, lim // 15)
+        x = lim * z + rng.randint(0, z - 1)
+        x13 = gen.iroot(3, x)
+        if x13 + 1 <= z < gen.isqrt(x):
+            y = rng.randint(x13 + 1, z)
+            out.append(("d", x, y, z, gen.get_k(x)))
+    return out
+
+
 def samples_stream(ctx):
     rng = ctx.rng
     q = ctx.quick
     small = _run_inputs(rng, 10 ** 4, 2 * 10 ** 7, 10 if q else 80) + _run_inputs(rng, 2 * 10 ** 7, 10 ** 9, 4 if q else 40)
-    big = _run_inputs(rng, 10 ** 9, 10 ** 11 if q else 10 ** 13, 5 if q else 40)
+    big = _run_inputs(rng, 10 ** 9, 10 ** 11 if q else 10 ** 13, 8 if q else 40)
     return _run_stream("hardloops-samples", ctx, small, big, [(1, 0), (3, 1), (16, 0)], [(2, 0), (16, 1)] if q else
-                       [(1, 0), (2, 1), (5, 0), (16, 0)], True, 3 * 10 ** 5 if q else 2 * 10 ** 6)
+                       [(1, 0), (2, 1), (5, 0), (16, 0)], True, 45 * 10 ** 5 if q else 6 * 10 ** 6)
 
 
 def streams(ctx):
     return [_judged("hardloops-exhaustive", exhaustive_ops(ctx), True),
             _judged("hardloops-boundary", boundary_ops(ctx), True),
+            _judged("hardloops-offcurve", offcurve_ops(ctx), False, use_def=False),
             samples_stream(ctx)]
 
 
@@ -525,6 +548,7 @@ def c03_streams(ctx):
     q = ctx.quick
     small = _run_inputs(rng, 10 ** 5, 10 ** 9, 8 if q else 60)
     big = _run_inputs(rng, 10 ** 9, 10 ** 11 if q else 10 ** 13, 3 if q else 30)
+    big += _multi_worker_inputs(rng, 1 if q else 12)
     combos = [(1, 0), (1, 1), (2, 0), (3, 1), (8, 0), (16, 1)]
     return [_run_stream("hardloops-runs", ctx, small, big, combos, combos[1:4] if q else combos, False,
-                        3 * 10 ** 5 if q else 2 * 10 ** 6)]
+                        45 * 10 ** 5 if q else 6 * 10 ** 6)]
